@@ -14,8 +14,11 @@ ASSUMPTIONS = ['packet buffers are left-padded (default); "promptly" is measured
 def run(rep, tier, seed):
     rnd = rng_for(seed, 'C14')
     b = Batch(rep)
+    fresh = []
     for stack, bits, klass in pc.malformed_stream(rnd, tier):
         out = pc.observe(stack, bits)
+        if len(fresh) < 200 and len(bits) % 8 == 0 and len(bits) < 24000 and rnd.random() < 0.1:
+            fresh.append((stack, int(bits, 2).to_bytes(len(bits) // 8, 'big') if bits else b''))
         fails = []
         if out[0] == 'EXC' and out[1] != 'ParserError':
             fails.append('%s parser: %s on a %d-bit %s input' % (stack, out[1], len(bits), klass))
@@ -23,6 +26,7 @@ def run(rep, tier, seed):
         b.add('%s:%s' % (stack, klass), pc.model_line(stack, bits), out, pc.parse_model, fails,
               dict(layer='parser', op='parse', stack=stack, bits=bits), key=(stack, bits))
     b.run()
+    pc.fresh_process_parse(rep, 'C14', fresh)
 
 
 def replay(case):
